@@ -3,7 +3,10 @@
 package p2p
 
 import (
+	"net"
+
 	"github.com/canopy-network/canopy/lib"
+	"github.com/canopy-network/canopy/lib/crypto"
 )
 
 // Verification hooks (build tag `verif` only; add-only, nothing here is compiled into normal builds).
@@ -51,4 +54,33 @@ func (p *P2P) VerifConn(publicKey []byte) *MultiConn {
 		return nil
 	}
 	return peer.conn
+}
+
+// VerifAttackerHandshake is the handshake of a misbehaving endpoint: the ephemeral key exchange is done honestly (it cannot be
+// otherwise without losing the channel), but the identity proof and the peer meta are whatever the callbacks return. It returns
+// the encrypted connection, the challenge of this session, and what the honest peer sent.
+func VerifAttackerHandshake(conn net.Conn, ephemeralPub, ephemeralPriv []byte,
+	proof func(challenge []byte) *lib.Signature, meta func() *lib.PeerMeta) (ec *EncryptedConn, challenge []byte, peerSig *lib.Signature, peerMeta *lib.PeerMeta, e lib.ErrorI) {
+	ec = &EncryptedConn{conn: conn}
+	peerTempPublicKey, e := keySwap(ec, ephemeralPub, handshakeTimeout)
+	if e != nil {
+		return
+	}
+	secret, err := crypto.SharedSecret(peerTempPublicKey, ephemeralPriv)
+	if err != nil {
+		return nil, nil, nil, nil, ErrFailedDiffieHellman(err)
+	}
+	sendAEAD, receiveAEAD, ch, err := crypto.HKDFSecretsAndChallenge(secret, ephemeralPub, peerTempPublicKey)
+	if err != nil {
+		return nil, nil, nil, nil, ErrFailedHKDF(err)
+	}
+	challenge = ch[:]
+	ec.receive, ec.send = newInternalState(receiveAEAD), newInternalState(sendAEAD)
+	if peerSig, err = signatureSwap(ec, proof(challenge), handshakeTimeout); err != nil {
+		return ec, challenge, nil, nil, ErrFailedSignatureSwap(err)
+	}
+	if peerMeta, err = peerMetaSwap(ec, meta(), handshakeTimeout); err != nil {
+		return ec, challenge, peerSig, nil, ErrFailedMetaSwap(err)
+	}
+	return
 }
